@@ -102,6 +102,98 @@ impl Sub for Cross {
   }
 }
 
+// ---------------------------------------------------------------- libFuzzer support
+
+const FUZZ_SEED: [u8; 32] = [0x5a; 32];
+const FUZZ_MSGS: [&str; 2] = ["{\"data\":\"cross-0\",\"exp\":\"2999-01-01T00:00:00Z\"}", "{\"data\":\"cross-1\",\"exp\":\"2999-01-01T00:00:00Z\"}"];
+
+#[derive(Clone, Debug, Serialize, Deserialize)]
+pub struct CrossFuzzCase {
+  pub y: Proto,
+  pub footer: Option<String>,
+  pub text: String,
+}
+
+pub fn fuzz_decode(data: &[u8]) -> Option<CrossFuzzCase> {
+  let (sel, rest) = data.split_first()?;
+  Some(CrossFuzzCase { y: Proto::ALL[(sel & 7) as usize], footer: if sel & 8 != 0 { Some("kid".into()) } else { None }, text: std::str::from_utf8(rest).ok()?.to_string() })
+}
+
+/// every authentic token of the fuzz universe, labelled with the protocol it belongs to
+fn fuzz_pool() -> Vec<(Proto, Option<&'static str>, String)> {
+  let mut v = vec![];
+  for p in Proto::ALL {
+    let k = universe(p, &FUZZ_SEED);
+    let lk = k.lib().expect("valid key");
+    for (i, m) in FUZZ_MSGS.iter().enumerate() {
+      let footer = if i == 1 { Some("kid") } else { None };
+      if let Ok(t) = core_build(&lk, &[9u8; 32][..if p == Proto::V2L { 24 } else { 32 }], m, footer, None) {
+        v.push((p, footer, t));
+      }
+    }
+  }
+  v
+}
+
+/// seeds: every token of protocol X presented to every other protocol Y, verbatim and relabelled
+pub fn fuzz_seeds() -> Vec<Vec<u8>> {
+  let mut out = vec![];
+  for (x, footer, t) in fuzz_pool() {
+    for (yi, y) in Proto::ALL.iter().enumerate() {
+      if *y == x {
+        continue;
+      }
+      let sel = (yi as u8) | if footer.is_some() { 8 } else { 0 };
+      let mut a = vec![sel];
+      a.extend_from_slice(t.as_bytes());
+      out.push(a);
+      let (_, pseg, fseg) = split_token(&t).unwrap();
+      let mut b = vec![sel];
+      b.extend_from_slice(match fseg { Some(f) => format!("{}{}.{}", y.header(), pseg, f), None => format!("{}{}", y.header(), pseg) }.as_bytes());
+      out.push(b);
+    }
+  }
+  out
+}
+
+pub struct CrossFuzz;
+impl Sub for CrossFuzz {
+  type Case = CrossFuzzCase;
+  fn name(&self) -> String {
+    "C07/libfuzzer".into()
+  }
+  fn check(&self, c: &CrossFuzzCase, cl: &mut Classes) -> Verdict {
+    let y = c.y;
+    let ky = universe(y, &FUZZ_SEED);
+    let ly = ky.lib().expect("valid key");
+    cl.tag(format!("->{}", y.label()));
+    cl.nontrivial(c.text.starts_with(y.header()));
+    for layer in Layer::ALL {
+      if let Ok(o) = layer_parse(y, layer, &ly, &c.text, c.footer.as_deref(), None) {
+        // acceptable only for content that was genuinely produced for Y in this universe
+        let m = match &o {
+          crate::rt::LayerOut::Text(t) => Some(t.clone()),
+          crate::rt::LayerOut::Json(v) => Some(v.to_string()),
+        };
+        let genuine = FUZZ_MSGS.iter().any(|g| Some(g.to_string()) == m || serde_json::from_str::<serde_json::Value>(g).ok().map(|v| v.to_string()) == m);
+        if !genuine {
+          vio!("C07:fuzz-accepted:{}:{}", y.label(), layer.label(); "{} {} accepted {:?} and returned {:?}, which was never produced for that protocol", y.label(), layer.label(), c.text, m);
+        }
+      }
+    }
+    Verdict::Pass
+  }
+}
+
+pub fn fuzz_one(data: &[u8]) -> Option<(String, String)> {
+  let c = fuzz_decode(data)?;
+  let mut cl = Classes::default();
+  match CrossFuzz.check(&c, &mut cl) {
+    Verdict::Violation { sig, detail } => Some((sig, detail)),
+    _ => None,
+  }
+}
+
 fn case(x: Proto, y: Proto) -> BoxedStrategy<CrossCase> {
   (
     any::<u16>(),
@@ -129,12 +221,15 @@ fn all_subs() -> Vec<Cross> {
 }
 
 pub fn subs() -> Vec<Box<dyn DynSub>> {
-  all_subs().into_iter().map(|s| Box::new(s) as Box<dyn DynSub>).collect()
+  let mut v: Vec<Box<dyn DynSub>> = all_subs().into_iter().map(|s| Box::new(s) as Box<dyn DynSub>).collect();
+  v.push(Box::new(CrossFuzz));
+  v
 }
 
 pub fn run(ctx: &Ctx) -> EvidenceMeta {
   let subs = all_subs();
   let mut jobs: Vec<Job> = vec![];
+  jobs.push(Box::new(move || ctx.fuzz_inputs(&CrossFuzz, "fz_cross", fuzz_decode)));
   for s in &subs {
     // fixed part: every presentation x build layer once, deterministically
     jobs.push(Box::new(move || {
